@@ -194,6 +194,25 @@ def typed_nx(desc):
 
 def build(desc):
     """Return (reservoir, time, schedule, fluid, table)."""
+    out = _build(desc)
+    if desc.get("grid", {}).get("container"):
+        # the caller's history lives in a DataFrame: stamps and frac-face pressures are handed over as
+        # pandas Series (default labels); `simulate` / `simulate_concurrently` below do the wrapping, the
+        # harness keeps judging by the plain arrays underneath
+        out[0]._vf_container = desc["grid"]["container"]
+    return out
+
+
+def as_handed_over(res, time, sched):
+    c = getattr(res, "_vf_container", None)
+    if c == "series":
+        import pandas as pd
+
+        return pd.Series(time, name="days"), (None if sched is None else pd.Series(sched, name="pressure_fracface"))
+    return time, sched
+
+
+def _build(desc):
     from bluebonnet.flow import FlowProperties, IdealReservoir, SinglePhaseReservoir
 
     desc = dict(desc, nx=typed_nx(desc))
@@ -287,6 +306,7 @@ TRAP = instrument.FPTrap()  # numpy FP exceptions raised inside bluebonnet frame
 
 
 def simulate(res, time, sched):
+    time, sched = as_handed_over(res, time, sched)
     with TRAP, warnings.catch_warnings():
         warnings.simplefilter("ignore")
         if sched is None:
@@ -307,6 +327,7 @@ def simulate_concurrently(runs, switch_interval=1e-5, timeout=240):
 
     def work(k):
         res, time, sched = runs[k]
+        time, sched = as_handed_over(res, time, sched)
         try:
             with warnings.catch_warnings():
                 warnings.simplefilter("ignore")
@@ -360,6 +381,8 @@ def random_sim_desc(rng, tier, single_share=0.75, consistent_only=False, schedul
     g = {"family": fam, "nt": nt, "t_end": float(10.0 ** rng.uniform(-3, 1.5)), "seed": int(rng.integers(0, 2**31))}
     if rng.random() < 0.12:
         g["offset"] = float(rng.choice([3.0, 90.0, 1e4, 1e6]))
+    if g["seed"] % 16 == 5:
+        g["container"] = "series"  # stamps and schedule come out of a DataFrame (no draw consumed)
     if rng.random() < 0.04 and len(nx_choices) > 3:
         nx = int(rng.choice([1000, 1001, 1500]))  # beyond any size threshold a solver might switch at
         g["nt"] = nt = min(nt, 12)
